@@ -6,6 +6,8 @@
    cfg     [start ("none"|"tcp"|"tc"), start_tc, rows ("none"|"mnr"|"int"), rows_n, nofill, nopad, font (0 default, 1 custom)]
    blocks  the TTI blocks in file order: [sgn, sn, ebn, cs, tci, tco, vp, jc, cf, tf (bytes, trailing 8Fh removed)]
    raised  "" or the name of the exception the reader raised
+   pair    0, or 1 for a record of the SN-magnitude family: it also carries raised2 / obs2, what the reader made of the
+           same file with every subtitle number raised by 1000; such a record is judged by that comparison only
    obs     projection of the document the reader returned:
      subs  one entry per timed unit, in document order (a <p> with begin/end, or each timed <span> of a <p>):
            p (index of the <p>), begin = ow + on/od s, end = ew + en/ed s,
@@ -55,6 +57,7 @@ InDomain(rec) ==
      /\ rec.cfg.start = "tcp" => ValidTc(rate, rec.gsi.tcp)
      /\ rec.cfg.start = "tc" => ValidTc(rate, rec.cfg.start_tc)
      /\ \A k \in 1..Len(rec.blocks) : BlockInDomain(rec.blocks[k], rate, rec.gsi.cct)
+  /\ SnWellFormed(rec.blocks)
 
 -----------------------------------------------------------------------------
 (* order of the document: subtitles are grouped by subtitle group number, groups in order of first appearance *)
@@ -151,7 +154,11 @@ CheckRec(j) ==
   LET rec == Recs[j]
       id  == rec.id
   IN
-  IF ~InDomain(rec) THEN PrintT(<<"SKIP", id, "out_of_domain">>)
+  \* whatever the file, the outcome does not depend on the magnitude of the subtitle numbers: obs2 is the projection of
+  \* the same file with every SN raised by 1000 (the accumulator of Stl.tla reads SN only to compare it)
+  IF rec.pair = 1 THEN Chk(rec.raised = rec.raised2 /\ rec.obs.subs = rec.obs2.subs, id, 0, "sn_magnitude_independent",
+                           IF Len(rec.obs.subs) # Len(rec.obs2.subs) THEN "subtitle_count_differs" ELSE "content_differs")
+  ELSE IF ~InDomain(rec) THEN PrintT(<<"SKIP", id, "out_of_domain">>)
   ELSE IF rec.raised # "" THEN Fail(id, 0, "reader_raised", rec.raised)
   ELSE
   LET env  == Env(rec.gsi, rec.cfg)
